@@ -27,6 +27,7 @@ import time
 
 import z3
 
+sys.path.insert(0, os.path.dirname(os.path.abspath(__file__)))
 SCRATCH = os.environ['VERIF_SCRATCH']
 PARAMS = json.loads(os.environ.get('VERIF_PARAMS', '{}'))
 N = PARAMS.get('N', 4)
@@ -115,75 +116,7 @@ def extract_tokens():
 
 # ------------------------------------------------------------------ python regex -> z3 regex
 
-import re._parser as sre
-import re._constants as sc
-
-RS = z3.ReSort(z3.StringSort())
-ANY = z3.AllChar(RS)
-
-
-def rng(a, b):
-    return z3.Range(chr(a), chr(b))
-
-
-def cat_re(name):
-    if name == sc.CATEGORY_DIGIT:
-        return rng(48, 57)
-    if name == sc.CATEGORY_WORD:
-        return z3.Union(rng(48, 57), rng(65, 90), rng(97, 122), z3.Re('_'))
-    if name == sc.CATEGORY_SPACE:
-        return z3.Union(*[z3.Re(c) for c in ' \t\n\r\x0b\x0c'])
-    raise ValueError('category %s' % name)
-
-
-def conv(items):
-    parts = []
-    for op, av in items:
-        if op == sc.LITERAL:
-            parts.append(z3.Re(chr(av)))
-        elif op == sc.NOT_LITERAL:
-            parts.append(z3.Diff(ANY, z3.Re(chr(av))))
-        elif op == sc.ANY:
-            parts.append(z3.Diff(ANY, z3.Re('\n')))
-        elif op == sc.IN:
-            neg = False
-            alts = []
-            for o2, a2 in av:
-                if o2 == sc.NEGATE:
-                    neg = True
-                elif o2 == sc.LITERAL:
-                    alts.append(z3.Re(chr(a2)))
-                elif o2 == sc.RANGE:
-                    alts.append(rng(a2[0], a2[1]))
-                elif o2 == sc.CATEGORY:
-                    alts.append(cat_re(a2))
-                else:
-                    raise ValueError('class item %s' % o2)
-            u = alts[0] if len(alts) == 1 else z3.Union(*alts)
-            parts.append(z3.Diff(ANY, u) if neg else u)
-        elif op in (sc.MAX_REPEAT, sc.MIN_REPEAT):
-            lo, hi, sub = av
-            r = conv(sub)
-            if hi == sc.MAXREPEAT:
-                parts.append(z3.Star(r) if lo == 0 else z3.Concat(*([r] * lo + [z3.Star(r)])) if lo > 1 else z3.Plus(r))
-            else:
-                parts.append(z3.Loop(r, lo, hi))
-        elif op == sc.SUBPATTERN:
-            parts.append(conv(av[3]))
-        elif op == sc.BRANCH:
-            parts.append(z3.Union(*[conv(b) for b in av[1]]))
-        elif op == sc.CATEGORY:
-            parts.append(cat_re(av))
-        else:
-            raise ValueError('regex op %s' % op)
-    if not parts:
-        return z3.Re('')
-    return parts[0] if len(parts) == 1 else z3.Concat(*parts)
-
-
-def to_z3(pattern):
-    return conv(sre.parse(pattern))
-
+from c01_lex_re import to_z3, cat_re, rng, ANY, sc  # noqa
 
 # ------------------------------------------------------------------ query helper
 
